@@ -35,7 +35,7 @@ RULE = ("ops: roundtrip (ADMGs 0-8 nodes with isolated / bidirected-only nodes, 
         "adds DAGs up to 11 nodes with sampled separation triples. A simplify/evans case is non-trivial when at least one rule changed the graph "
         "and at least two observed nodes remain; a roundtrip case when it has an edge-less node or >=2 bidirected edges.")
 ASSUMPTIONS = [
-    "clause 'separation relations among observed nodes are unchanged': simplify_dsep_invariant (d-connection inside the LV-DAG unchanged), dsep_iff_msep_projection (= m-connection of the latent projection) and verdict_invariant (every test computed from the projected graph) are theorems for the WALK formulation of d-/m-connection (collider needs a descendant-or-self in Z, every other inner node outside Z). Not mechanised: that the walk formulation agrees with the textbook PATH formulation (a connecting walk shortens to a connecting path) and that y0's are_d_separated computes it (property C04); the oracle cross-checks walk vs path enumeration on every generated case, on the DAG and on the projection",
+    "clause 'separation relations among observed nodes are unchanged': proved in full for observed a != b and observed conditioning sets not containing them. The walk formulation used by simplify_dsep_invariant / dsep_iff_msep_projection is proved equal to the textbook simple-PATH definition MG.MConnPath of property C04 (dconn_walk_iff_path, mconn_walk_iff_path), and the clause is restated with it and with the executable C04 model MG.dSeparated (lvdag_dsep_model_eq_projection, simplify_preserves_dsep_model, simplify_dsep_verdict_iff_no_path). What ties MG.dSeparated to y0's are_d_separated is property C04's correspondence check, not C16's; the C16 oracle still cross-checks walk vs path enumeration on every generated case, on the DAG and on the projection",
     "clause 'identifiability verdicts unchanged': theorem by congruence only (ID as any function of the mixed graph that respects NxMixedGraph.__eq__); that y0's identify() respects __eq__ is not proved here; the harness runs identify_outcomes on the independent projection and on y0's output for sampled queries",
     "theorem hypotheses: D.WF (distinct nodes/edges, edge endpoints are nodes, every node tagged: what building an nx.DiGraph gives), D.Acyclic, and for the names only `Function.Injective fresh` (u_i distinct) and `forall n, n < prime n` (a primed name is a longer string); bidirected self-loops are excluded from the round trip (not an ADMG)",
     "networkx topological_sort on a graph mutated during iteration is modelled as the order of the input graph (argued in Model/Latent.lean); correspondence compares results as sets, names invented for new latents are compared by their child sets",
